@@ -64,7 +64,7 @@ PROPS = {
     },
     "C06": {
         "modules": ["Qvnt.Props.C06"],
-        "tie": [tie2(r"quant_(collapse_mask|rescale|measure_mask|measure|get_absolute|get_probabilities)_eq|creg_new_eq", r"UNSUPPORTED quant\.rs: register/quant\.rs::(collapse_mask|rescale|measure_mask|measure|get_absolute|get_probabilities)")],
+        "tie": [tie2(r"quant_(collapse_mask|rescale|measure_mask|measure|get_absolute|get_probabilities)_eq|creg_new_eq", r"UNSUPPORTED quant\.rs: register/quant\.rs::(collapse_mask|rescale|measure_mask|measure|get_absolute|get_probabilities):")],
         "suites": [suite("meas", dict(count=500, max_n=6), dict(count=15000, max_n=10))],
         "mismatch_tags": [r"measure.*"],
         "spec_tags": [r"c06\..*"],
@@ -77,7 +77,7 @@ PROPS = {
     },
     "C07": {
         "modules": ["Qvnt.Props.C07"],
-        "tie": [tie2(r"quant_(get_probabilities|get_absolute|measure_mask|collapse_mask|rescale)_eq", r"UNSUPPORTED quant\.rs: register/quant\.rs::(collapse_mask|rescale|measure_mask|get_absolute|get_probabilities)")],
+        "tie": [tie2(r"quant_(get_probabilities|get_absolute|measure_mask|collapse_mask|rescale)_eq", r"UNSUPPORTED quant\.rs: register/quant\.rs::(collapse_mask|rescale|measure_mask|get_absolute|get_probabilities):")],
         "suites": [suite("meas", dict(count=200, max_n=5), dict(count=4000, max_n=8)),
                    suite("born", dict(count=12, shots=2048), dict(count=300, shots=16384))],
         "mismatch_tags": [r"probs", r"measure.*"],
@@ -104,7 +104,7 @@ PROPS = {
     },
     "C11": {
         "modules": ["Qvnt.Props.C11"],
-        "tie": [tie(r"creg_(set|xor|reset|get)_eq|notW_eq", modules=("Qvnt.Lemmas.GenRegs",), audit="Qvnt/Audit/GenRegs.lean", sources=r"UNSUPPORTED class\.rs"), tie2(r"creg_get_by_mask_eq|quant_(reset_by_mask|measure_mask|reset)_eq|bitsList_eq", r"UNSUPPORTED (quant\.rs: register/quant\.rs::(reset_by_mask|measure_mask|reset)|class\.rs|bits_iter\.rs)")],
+        "tie": [tie(r"creg_(set|xor|reset|get)_eq|notW_eq", modules=("Qvnt.Lemmas.GenRegs",), audit="Qvnt/Audit/GenRegs.lean", sources=r"UNSUPPORTED class\.rs"), tie2(r"creg_get_by_mask_eq|quant_(reset_by_mask|measure_mask|reset)_eq|bitsList_eq", r"UNSUPPORTED (quant\.rs: register/quant\.rs::(reset_by_mask|measure_mask|reset):|class\.rs|bits_iter\.rs)")],
         "suites": [suite("intnu", dict(count=600), dict(count=20000))],
         "mismatch_tags": INT_STRUCT,
         "spec_tags": [r"refsem\.(psi|creg|run)", r"c11\..*", r"iexpect\.accept"],
@@ -181,12 +181,13 @@ PROPS = {
     },
     "C10": {
         "modules": ["Qvnt.Props.C10"],
-        "suites": [suite("int", dict(count=500), dict(count=15000)), suite("c10e", dict(count=300), dict(count=6000))],
+        "suites": [suite("int", dict(count=500), dict(count=15000)), suite("c10e", dict(count=300), dict(count=6000)),
+                   suite("c10f", dict(count=400), dict(count=12000))],
         "mismatch_tags": INT_STRUCT,
-        "spec_tags": [r"refsem\.(psi|creg|run)", r"iexpect\.accept", r"c10\..*"],
+        "spec_tags": [r"refsem\.(psi|creg|run)", r"iexpect\.accept", r"c10\..*", r"isame"],
         "trusted_base": TB_COMMON,
         "assumptions": ASSUME_COMMON + ["text -> AST (crate qvnt-qasm) and expression text -> RPN (crate meval) are external and not modelled: the model starts from the AST / RPN the real crates produced; the intended value of generated expressions is known to the generator and compared with what the pipeline applied"],
-        "level_text": "Lean theorems (Props/C10.lean, 20): bit k of the alias mask is set iff the k-th declared (qu)bit belongs to that register, a register declared after `pre` occupies bits pre.length .. pre.length+n-1 and r[i] resolves to 2^(offset+i), distinct (qu)bits are disjoint; every accepted gate statement changes the queue by exactly one push of its operator and nothing else, measure/reset by exactly one separator block, barrier/declarations not at all, and statements compose in program order; one level of a user-defined gate is its body with formal qubits and parameters substituted, in body order. Tied to the code by the int suite (random programs with several registers, interleaved cregs, parameterised nested gate definitions, expression trees): interpreter state and executed result compared with the model, and the executed result compared with the statement-by-statement reference semantics (Spec/RefSem).",
+        "level_text": "Lean theorems (Props/C10.lean, 20): bit k of the alias mask is set iff the k-th declared (qu)bit belongs to that register, a register declared after `pre` occupies bits pre.length .. pre.length+n-1 and r[i] resolves to 2^(offset+i), distinct (qu)bits are disjoint; every accepted gate statement changes the queue by exactly one push of its operator and nothing else, measure/reset by exactly one separator block, barrier/declarations not at all, and statements compose in program order; one level of a user-defined gate is its body with formal qubits and parameters substituted, in body order. Tied to the code by the int suite (random programs with several registers, interleaved cregs, parameterised nested gate definitions, expression trees): interpreter state and executed result compared with the model, and the executed result compared with the statement-by-statement reference semantics (Spec/RefSem); by the c10f suite: programs with nested, repeatedly called and built-in-shadowing user gates are run against their flattened form (every expansion done by the generator with the actual qubits and parameter values) through the implementation itself, final states must agree.",
         "level_note": "Trusted: Lean kernel + standard axioms; hand-written model of int/mod.rs, macros.rs, parse.rs (RPN evaluation); external parsers as stated.",
         "technique": TECH,
         "design_ref": "DESIGN.md section 5, C10",
@@ -218,7 +219,7 @@ PROPS = {
     },
     "C14": {
         "modules": ["Qvnt.Props.C14"],
-        "tie": [tie(r"creg_(tensor_prod|with_state|set_num|mask_of|num)_eq", modules=("Qvnt.Lemmas.GenRegs",), audit="Qvnt/Audit/GenRegs.lean", sources=r"UNSUPPORTED class\.rs"), tie2(r"quant_(new|with_state|set_num|reset|tensor_prod|get_probabilities)_eq|creg_(mul|mul_assign|new)_eq", r"UNSUPPORTED (quant\.rs: register/quant\.rs::(new|with_state|set_num|reset|tensor_prod|get_probabilities)|class\.rs)")],
+        "tie": [tie(r"creg_(tensor_prod|with_state|set_num|mask_of|num)_eq", modules=("Qvnt.Lemmas.GenRegs",), audit="Qvnt/Audit/GenRegs.lean", sources=r"UNSUPPORTED class\.rs"), tie2(r"quant_(new|with_state|set_num|reset|tensor_prod|get_probabilities)_eq|creg_(mul|mul_assign|new)_eq", r"UNSUPPORTED (quant\.rs: register/quant\.rs::(new|with_state|set_num|reset|tensor_prod|get_probabilities):|class\.rs)")],
         "suites": [suite("reg", dict(count=500, max_n=6), dict(count=10000, max_n=9))],
         "mismatch_tags": [r"qobs.*", r"tensor.*", r"setnum.*", r"probs", r"polar", r"qvreg", r"creg", r"ctensor", r"cmulassign", r"qstate", r"q2state", r"q2reg"],
         "spec_tags": [r"c14\..*"],
@@ -258,7 +259,7 @@ PROPS = {
     },
     "C01": {
         "modules": ["Qvnt.Props.C01"],
-        "tie": [tie(r".*_(op|isValid|actsOn|new)_eq|rotate_eq|negWord_eq|yIPow_eq|forEach_eq|ctrlTest_iff|count_bits_eq", sources=r"UNSUPPORTED (?!class\.rs|dispatch\.rs: dispatch\.rs::for_each_par)"), tie2(r"single_(apply|from)_eq|multi_apply_eq|quant_apply_eq|h_(loop|h)_eq", r"UNSUPPORTED (mod\.rs|h\.rs|quant\.rs: register/quant\.rs::apply)")],
+        "tie": [tie(r".*_(op|isValid|actsOn|new)_eq|rotate_eq|negWord_eq|yIPow_eq|forEach_eq|ctrlTest_iff|count_bits_eq", sources=r"UNSUPPORTED (?!class\.rs|dispatch\.rs: dispatch\.rs::for_each_par)"), tie2(r"single_(apply|from)_eq|multi_apply_eq|quant_apply_eq|h_(loop|h)_eq", r"UNSUPPORTED (mod\.rs|h\.rs|quant\.rs: register/quant\.rs::apply:)")],
         "suites": [
             suite("c01x", dict(count=0, max_n=3), dict(count=0, max_n=4)),
             suite("c01", dict(count=800, max_n=6), dict(count=20000, max_n=9)),
@@ -274,7 +275,7 @@ PROPS = {
     },
     "C02": {
         "modules": ["Qvnt.Props.C02"],
-        "tie": [tie(r"forEach_eq|ctrlTest_iff|.*_actsOn_eq", sources=r"UNSUPPORTED dispatch\.rs: dispatch\.rs::for_each:"), tie2(r"single_(c|act_on)_eq|multi_(c|act_on)_eq", r"UNSUPPORTED mod\.rs: operator/(single|multi)/mod\.rs::(c|act_on)")],
+        "tie": [tie(r"forEach_eq|ctrlTest_iff|.*_actsOn_eq", sources=r"UNSUPPORTED dispatch\.rs: dispatch\.rs::for_each:"), tie2(r"single_(c|act_on)_eq|multi_(c|act_on)_eq", r"UNSUPPORTED mod\.rs: operator/(single|multi)/mod\.rs::(c|act_on):")],
         "suites": [suite("c02", dict(count=800, max_n=5), dict(count=20000, max_n=8))],
         "mismatch_tags": [r"op", r"metactrl", r"metactrl\.acton"],
         "spec_tags": [r"c02\..*"],
@@ -300,7 +301,7 @@ PROPS = {
     },
     "C04": {
         "modules": ["Qvnt.Props.C04"],
-        "tie": [tie2(r"multi_(apply|mul_assign)_eq|single_apply_eq|quant_apply_eq", r"UNSUPPORTED (mod\.rs: operator/(single|multi)/mod\.rs::(apply|mul_assign)|quant\.rs: register/quant\.rs::apply)")],
+        "tie": [tie2(r"multi_(apply|mul_assign)_eq|single_apply_eq|quant_apply_eq", r"UNSUPPORTED (mod\.rs: operator/(single|multi)/mod\.rs::(apply|mul_assign):|quant\.rs: register/quant\.rs::apply:)")],
         "suites": [
             suite("c04", dict(count=600, max_n=5), dict(count=6000, max_n=8, long=1)),
             suite("ops", dict(count=300, max_n=5), dict(count=3000, max_n=7)),
